@@ -33,6 +33,12 @@ def run(ctx):
     ctx.guard(rule_d, ctx, ix)
     ctx.guard(rule_e, ctx, ix)
     ctx.guard(rule_f, ctx, ix)
+    # undo / redo go through the collection: undoing a selection removes the groups it created (remove_subset_group must tear the
+    # group down completely), undoing RemoveData / redoing AddData re-appends a dataset (every group must give it a member again)
+    from ..report import BorrowedCtx
+    from .C06 import rule_b as _group_life_cycle, rule_f as _member_per_dataset
+    ctx.guard(_group_life_cycle, BorrowedCtx(ctx, {'C06.b': 'C13.g'}), ix)
+    ctx.guard(_member_per_dataset, BorrowedCtx(ctx, {'C06.f': 'C13.h'}), ix)
 
 
 def _stmts(f):
